@@ -76,6 +76,17 @@ class C07(Prop):
             if rng.random() < 0.8:
                 steps.append({"t": "call", "m": "set", "a": [E(k), E(gen.pick_value(rng))],
                               "k": {"noreply": False}})
+        many = None
+        if stack in ("client", "pooled") and not deser and rng.random() < 0.04:
+            # a multi-key read of several hundred present keys: the reply spans many recv() results, and an
+            # implementation that fetches in batches has requests of its own after the first one
+            many = [b"m%03d" % j for j in range(rng.randint(201, 450))]
+            pfx = codec.dec(ck.get("key_prefix", E(b"")))
+            if isinstance(pfx, str):
+                pfx = pfx.encode()
+            for mk in many:
+                steps.append({"t": "direct", "node": 0, "key": E(pfx + mk), "value": E(b"v" + mk)})
+            w["knobs"]["recv_size"] = 4096
         npre = len(steps)
         nreads = rng.randint(1, 3)
         mode = rng.random()
@@ -102,6 +113,8 @@ class C07(Prop):
             nreads = ck.get("retry_attempts", 0) + rng.choice([2, 3, 4])
         for _ in range(nreads):
             st = self.read_call(rng, stack, keys)
+            if many is not None:
+                st = {"t": "call", "m": rng.choice(["get_many", "gets_many"]), "a": [E(many)], "k": {}}
             net = gen.gen_net(rng, 0.4)
             if net:
                 st["net"] = net
@@ -134,6 +147,10 @@ class C07(Prop):
             for i in read_steps:
                 steps[i].setdefault("faults", []).append({"at": ["deser", rng.choice([0, 0, 1])], "kind": "deser"})
             return [base]
+        if many is not None:
+            res = engine.execute(base, ())
+            recs = {c.step: c for c in res.calls}
+            return gen.sweep_variants(base, recs, [read_steps[-1]], ("recv",), rng, max_per_event=3) or [base]
         if mode < 0.7:
             res = engine.execute(base, ())
             recs = {c.step: c for c in res.calls}
@@ -195,7 +212,8 @@ class C07(Prop):
                 ok = model.results_equal(m.value, rec.value)
                 if not ok and h is not None and h.outcome == "return":
                     ok = model.results_equal(h.value, rec.value)
-                    if not ok and isinstance(rec.value, dict) and isinstance(h.value, dict):
+                    if not ok and stack == "hash" and isinstance(rec.value, dict) and isinstance(h.value, dict):
+                        # a hash client may answer with the part that lives on its healthy servers
                         ok = all(k in h.value and model.results_equal(h.value[k], v)
                                  for k, v in rec.value.items())
                 if not ok:
@@ -220,7 +238,7 @@ class C07(Prop):
     def probe_names(self):
         return ("all-servers-down", "deserializer-failed", "fault-in-multi-key-read", "partial-hash-result",
                 "sentinel-default-returned", "idle-eviction-during-failing-read",
-                "reads-walk-server-through-failover-and-revival")
+                "reads-walk-server-through-failover-and-revival", "fault-late-in-a-reply-of-hundreds-of-items")
 
     def probes(self, scn, res):
         p = {}
@@ -237,6 +255,8 @@ class C07(Prop):
                 sum(1 for c in res.calls if c.step >= 0 and c.fired and c.method in gen.READS) >= ck["retry_attempts"] + 2:
             p["reads-walk-server-through-failover-and-revival"] = 1
         for c in res.calls:
+            if c.fired and c.method in ("get_many", "gets_many") and c.received > 8000:
+                p["fault-late-in-a-reply-of-hundreds-of-items"] = 1
             for f in c.fired:
                 if f[2] == "deser":
                     p["deserializer-failed"] = 1
